@@ -846,13 +846,392 @@ def rule_X(ctx):
     c01.rule_T(Proxy(ctx, {'C01.T': 'C02.X'}))
 
 
+def rule_G(ctx):
+    """C02.G Track.operate(expression) - with makeRPN, the rewriting passes, the dispatch and the operator classes beneath it -
+    interpreted on families of expression trees and compared with ordinary arithmetic under the documented operator definitions"""
+    import itertools
+    import math
+    from .. import absint, orders, npstub
+    TRACKQ = 'tracklib.core.track.Track'
+    fo = ctx.prog.func(TRACKQ + '.operate')
+    fn = absint.funcs(ctx, 'tracklib.core.track', dict(npstub.stubs()))
+    NANV = float('nan')
+    fn['__globals__']['NAN'] = NANV
+
+    def _exit(*a):
+        raise orders.Raised('SystemExit', 'exit(%s)' % (a[0] if a else ''))
+    fn['exit'] = _exit
+    T = absint.classref(ctx, TRACKQ, fn)
+    absint.operator_table(ctx, fn)
+
+    class Pos(orders.PyStub):
+        isa = ('ENUCoords',)
+
+        def __init__(self, x, y, z):
+            self.c = [float(x), float(y), float(z)]
+
+        def getX(self):
+            return self.c[0]
+
+        def getY(self):
+            return self.c[1]
+
+        def getZ(self):
+            return self.c[2]
+
+        def setX(self, v):
+            self.c[0] = v
+
+        def setY(self, v):
+            self.c[1] = v
+
+        def setZ(self, v):
+            self.c[2] = v
+
+        def copy(self):
+            return Pos(*self.c)
+
+    class Stamp(orders.PyStub):
+        isa = ('ObsTime',)
+
+        def __init__(self, t):
+            self.t = float(t)
+
+        def toAbsTime(self):
+            return self.t
+
+        def copy(self):
+            return Stamp(self.t)
+
+    class O(orders.PyStub):
+        isa = ('Obs',)
+
+        def __init__(self, k):
+            self.k = k
+            self.position = Pos(1.0 + k, 10.0 - 2.0 * k, 0.5 * k * k)
+            self.timestamp = Stamp(100.0 + 3.0 * k)
+            self.features = []
+
+        def copy(self):
+            o = O(self.k)
+            o.position, o.timestamp, o.features = self.position.copy(), self.timestamp.copy(), list(self.features)
+            return o
+    N = 5
+    FEATS = {'a': [3.0, -1.5, 0.0, NANV, 2.0], 'b': [2.0, 2.0, -4.0, 1.0, 0.0], 'rate': [1.0, 4.0, 9.0, 16.0, 25.0],
+             'p': [1e-20, 2e-20, -1e-20, 5e-20, 1e-20], 'E': [5.0, 6.0, 7.0, 8.0, 9.0], 'w': [4.0, -7.0, 1.0, -7.0, 9.5]}
+    VIRT = {'x': [1.0 + k for k in range(N)], 'y': [10.0 - 2.0 * k for k in range(N)], 'z': [0.5 * k * k for k in range(N)],
+            't': [100.0 + 3.0 * k for k in range(N)], 'idx': [float(k) for k in range(N)]}
+
+    def mk():
+        t = T([O(k) for k in range(N)], 'u', 't')
+        for nm, vs in FEATS.items():
+            t.call('createAnalyticalFeature', nm, list(vs))
+        return t
+
+    def isn(v):
+        return isinstance(v, float) and v != v
+    # ---- expression trees: ('num', v) ('name', n) ('bin', op, l, r) ('neg', e) ('fun', f, e)
+    PREC = {'<': 1, '>': 1, '+': 2, '-': 2, '*': 3, '/': 3, '^': 4}
+
+    def render(e, parent=None, right=False):
+        k = e[0]
+        if k == 'num':
+            v = e[1]
+            return str(int(v)) if float(v).is_integer() else repr(v)
+        if k == 'name':
+            return e[1]
+        if k == 'fun':
+            return '%s{%s}' % (e[1], render(e[2]))
+        if k == 'neg':
+            s_ = '-' + render(e[1], ('neg',), False)
+            return '(%s)' % s_ if parent is not None else s_
+        op = e[1]
+        s_ = render(e[2], e, False) + op + render(e[3], e, True)
+        if parent is not None and parent[0] == 'neg':
+            return '(%s)' % s_
+        if parent is not None and parent[0] == 'bin' and (PREC[op] < PREC[parent[1]] or (PREC[op] == PREC[parent[1]] and right)):
+            return '(%s)' % s_
+        return s_
+
+    def pointwise(f, u, v):
+        if isinstance(u, list) or isinstance(v, list):
+            uu = u if isinstance(u, list) else [u] * N
+            vv = v if isinstance(v, list) else [v] * N
+            return [f(a_, b_) for a_, b_ in zip(uu, vv)]
+        return f(u, v)
+
+    class Skip(Exception):
+        pass
+
+    def value(e, env):
+        k = e[0]
+        if k == 'num':
+            return float(e[1])
+        if k == 'name':
+            return list(env[e[1]])
+        if k == 'neg':
+            v = value(e[1], env)
+            return [0.0 - x for x in v] if isinstance(v, list) else 0.0 - v
+        if k == 'fun':
+            v = value(e[2], env)
+            v = v if isinstance(v, list) else [v] * N
+            ok_ = [x for x in v if not isn(x)]
+            f = e[1]
+            if f == 'ABS':
+                return [abs(x) for x in v]
+            if f == 'SIGN':
+                return [float(1 * (x >= 0) - 1 * (x < 0)) for x in v]
+            if f == 'SQRT':
+                if any(x < 0 for x in ok_):
+                    raise Skip()
+                return [x if isn(x) else math.sqrt(x) for x in v]
+            if f == 'EXP':
+                return [x if isn(x) else math.exp(x) for x in v]
+            if f == 'D':
+                return [NANV] + [v[i] - v[i - 1] for i in range(1, N)]
+            if f == 'I':
+                out = [0.0]
+                for i in range(1, N):
+                    out.append(out[-1] + v[i])
+                return out
+            if f == 'DIODE':
+                return [x * (x > 0) for x in v]
+            if f == 'LOG':
+                if any(x <= 0 for x in ok_) or len(ok_) != len(v):
+                    raise Skip()
+                return [math.log(x) for x in v]
+            if f in ('COS', 'SIN', 'TAN'):
+                return [x if isn(x) else getattr(math, f.lower())(x) for x in v]
+            if f == 'D2':
+                return [NANV] + [v[i + 1] - 2 * v[i] + v[i - 1] for i in range(1, N - 1)] + [NANV]
+            if not ok_:
+                raise Skip()
+            def med(vs):
+                s2 = sorted(vs)
+                m_ = len(s2)
+                return s2[m_ // 2] if m_ % 2 else 0.5 * (s2[m_ // 2 - 1] + s2[m_ // 2])
+            if f == 'MEDIAN':
+                if len(ok_) != len(v):
+                    raise Skip()            # the median operator is defined on complete vectors only
+                return med(v)
+            if f == 'MAD':
+                return med([abs(x) for x in ok_])
+            if f in ('MSE', 'RMSE'):
+                ms = sum(x * x for x in ok_) / len(ok_)
+                return ms if f == 'MSE' else math.sqrt(ms)
+            if f in ('ARGMIN', 'ARGMAX'):
+                if len(ok_) != len(v):
+                    raise Skip()
+                best = (min if f == 'ARGMIN' else max)(v)
+                return float(v.index(best))
+            if f == 'SUM':
+                return sum(ok_)
+            if f == 'AVG':
+                return sum(ok_) / len(ok_)
+            if f == 'MIN':
+                return min(ok_)
+            if f == 'MAX':
+                return max(ok_)
+            if f in ('VAR', 'STD'):
+                m_ = sum(ok_) / len(ok_)
+                var = sum((x - m_) ** 2 for x in ok_) / len(ok_)
+                return var if f == 'VAR' else math.sqrt(var)
+            raise Skip()
+        op, u, v = e[1], value(e[2], env), value(e[3], env)
+        if op == '+':
+            return pointwise(lambda a_, b_: a_ + b_, u, v)
+        if op == '-':
+            return pointwise(lambda a_, b_: a_ - b_, u, v)
+        if op == '*':
+            return pointwise(lambda a_, b_: a_ * b_, u, v)
+        if op == '<':
+            return pointwise(lambda a_, b_: float(a_ < b_), u, v)
+        if op == '>':
+            return pointwise(lambda a_, b_: float(a_ > b_), u, v)
+        if op == '/':
+            if isinstance(u, list) and isinstance(v, list):
+                return [NANV if b_ == 0 else a_ / b_ for a_, b_ in zip(u, v)]       # the documented guard of the feature/feature divider
+            if (isinstance(v, list) and any(b_ == 0 for b_ in v)) or (not isinstance(v, list) and v == 0):
+                raise Skip()
+            return pointwise(lambda a_, b_: a_ / b_, u, v)
+        if op == '^':
+            def pw(a_, b_):
+                if isn(a_) or isn(b_):
+                    return a_ ** b_             # Python's own rule (1 ** nan == nan ** 0 == 1)
+                if (a_ == 0 and b_ < 0) or (a_ < 0 and not float(b_).is_integer()) or abs(b_) > 6 or abs(a_) > 1e3:
+                    raise Skip()
+                return a_ ** b_
+            return pointwise(pw, u, v)
+        raise Skip()
+
+    def close(g_, w_):
+        if isn(w_):
+            return isn(g_)
+        if isinstance(g_, bool):
+            g_ = float(g_)
+        return isinstance(g_, (int, float)) and not isn(g_) and abs(g_ - w_) <= 1e-9 * max(1.0, abs(w_))
+    found = {}
+    counts = {}
+
+    def snapshot(t):
+        names = t.call('getListAnalyticalFeatures')
+        vals = {nm: t.call('getAnalyticalFeature', nm) for nm in names}
+        pos = [tuple(o.position.c) + (o.timestamp.t,) for o in t.fields['_Track__POINTS']]
+        return names, vals, pos
+
+    def same_list(u, v):
+        return isinstance(u, list) and isinstance(v, list) and len(u) == len(v) and all(close(a_, b_) if isinstance(b_, float) else a_ == b_ for a_, b_ in zip(u, v))
+
+    def run(family, e, target=None):
+        env = dict(FEATS)
+        env.update(VIRT)
+        try:
+            want = value(e, env)
+        except Skip:
+            return
+        except (ZeroDivisionError, OverflowError, ValueError):
+            return
+        want = want if isinstance(want, list) else [want] * N
+        text = render(e)
+        if target is not None:
+            text = target + '=' + text
+        counts[family] = counts.get(family, 0) + 1
+        t = mk()
+        before = snapshot(t)
+        try:
+            got = t.call('operate', text)
+        except orders.Unsupported as ex:
+            raise shape_error('Track.operate(%r) not interpretable: %s' % (text, ex), fo.loc())
+        except (ZeroDivisionError, IndexError, KeyError, TypeError, AttributeError, ValueError, OverflowError, orders.Raised, RecursionError) as ex:
+            found.setdefault((family, 'fails'), ('the expression is evaluated', {'expression': text, 'exception': '%s: %s' % (type(ex).__name__, str(ex)[:160]), 'expected': [None if isn(v) else v for v in want]}))
+            return
+        after = snapshot(t)
+        show = lambda vs: [None if isn(v) else v for v in vs] if isinstance(vs, list) else repr(vs)
+        if target is None:
+            if not same_list(got, want):
+                found.setdefault((family, 'value'), ('the value returned is the value of the same expression tree under ordinary arithmetic (usual precedence, left-to-right, documented operator definitions)',
+                                                     {'expression': text, 'returned': show(got), 'expected': show(want)}))
+            if after[0] != before[0] or any(not same_list(after[1][nm], before[1][nm]) for nm in before[0]) or after[2] != before[2]:
+                found.setdefault((family, 'untouched'), ('without "=" the track is left exactly as it was (features listed, their values, coordinates, timestamps)',
+                                                         {'expression': text, 'features before': before[0], 'features after': after[0]}))
+            return
+        # assignment
+        exp_names = list(before[0]) + ([target] if target not in before[0] and target not in VIRT else [])
+        stored = [o.position.c['xyz'.index(target)] for o in t.fields['_Track__POINTS']] if target in ('x', 'y', 'z') else (after[1].get(target) if target in after[0] else None)
+        if not same_list(stored, want):
+            found.setdefault((family, 'stored'), ('with "=" the result is stored under the left-hand name (created or overwritten; written to the coordinate for x, y, z)',
+                                                  {'expression': text, 'stored under %s' % target: show(stored), 'expected': show(want)}))
+        others_ok = sorted(after[0]) == sorted(exp_names) and all(same_list(after[1][nm], before[1][nm]) for nm in before[0] if nm != target)
+        pos_ok = all(tuple(a_ for i_, a_ in enumerate(pa) if 'xyzt'[i_] != target) == tuple(b_ for i_, b_ in enumerate(pb) if 'xyzt'[i_] != target) for pa, pb in zip(after[2], before[2]))
+        if not others_ok or not pos_ok:
+            found.setdefault((family, 'frame'), ('an assignment changes nothing but its target (no other feature, coordinate or timestamp; no temporary left listed)',
+                                                 {'expression': text, 'features before': before[0], 'features after': after[0]}))
+    A, B, RATE, P_, E_ = ('name', 'a'), ('name', 'b'), ('name', 'rate'), ('name', 'p'), ('name', 'E')
+    two, half = ('num', 2), ('num', 0.5)
+    OPS = ['+', '-', '*', '/', '^', '<', '>']
+    # F1 precedence and associativity: every pair of operators in both tree shapes, rendered with the parentheses the grammar requires only
+    for (x1, x2, x3) in ((A, B, two), (RATE, two, B), (two, RATE, B)):
+        for o1 in OPS:
+            for o2 in OPS:
+                run('precedence', ('bin', o1, ('bin', o2, x1, x2), x3))
+                run('precedence', ('bin', o1, x1, ('bin', o2, x2, x3)))
+    # F2 each operator in its four operand-kind arms
+    for o in OPS:
+        for l, r in ((A, B), (B, A), (RATE, two), (two, RATE), (two, half), (A, two), (two, A), (RATE, B)):
+            run('operators', ('bin', o, l, r))
+    # F3 functions, alone and inside expressions; aggregates after a nested parenthesised sub-expression
+    for f in ('ABS', 'SIGN', 'SQRT', 'EXP', 'D', 'I', 'D2', 'DIODE', 'LOG', 'COS', 'SIN', 'TAN', 'SUM', 'AVG', 'MIN', 'MAX', 'VAR', 'STD', 'MEDIAN', 'MAD', 'MSE', 'RMSE', 'ARGMIN', 'ARGMAX'):
+        for arg in (A, B, RATE, ('bin', '+', RATE, B), ('bin', '*', A, two), ('name', 'w'), ('name', 'E')):
+            run('functions', ('fun', f, arg))
+        run('functions', ('bin', '+', ('fun', f, RATE), B))
+        run('functions', ('bin', '*', two, ('fun', f, B)))
+    for agg in ('SUM', 'AVG', 'MIN', 'MAX', 'STD'):
+        run('functions', ('bin', '+', ('bin', '*', B, ('bin', '+', RATE, B)), ('fun', agg, B)))
+        run('functions', ('bin', '/', ('bin', '-', RATE, ('fun', 'AVG', RATE)), ('fun', agg, RATE)))
+        run('functions', ('bin', '*', ('bin', '-', B, ('bin', '*', RATE, B)), ('fun', agg, RATE)))
+        run('functions', ('bin', '-', ('bin', '+', ('fun', 'SUM', B), ('fun', agg, RATE)), ('fun', 'SUM', ('bin', '*', B, B))))
+    run('functions', ('fun', 'MIN', ('fun', 'D', RATE)))
+    run('functions', ('bin', '-', B, ('fun', 'MAX', ('fun', 'D', B))))
+    # F4 unary minus
+    for e in (('neg', A), ('bin', '+', ('neg', A), B), ('bin', '*', B, ('neg', A)), ('bin', '-', B, ('neg', two)), ('neg', ('bin', '+', A, B)), ('bin', '^', ('neg', RATE), two),
+              ('bin', '+', ('neg', RATE), A), ('neg', ('fun', 'ABS', A))):
+        run('unary minus', e)
+    # F5 names that end in e / E, tiny denominators, virtual features
+    for e in (('bin', '-', RATE, A), ('bin', '+', RATE, two), ('bin', '-', E_, RATE), ('bin', '+', ('neg', RATE), A), ('bin', '-', E_, two), ('bin', '*', RATE, E_)):
+        run('names', e)
+    for e in (('bin', '/', B, P_), ('bin', '/', P_, P_), ('bin', '/', B, ('bin', '*', P_, P_)), ('bin', '/', ('num', 1), P_)):
+        run('tiny values', e)
+    for v in ('x', 'y', 'z', 't', 'idx'):
+        run('virtual features', ('bin', '+', ('name', v), two))
+        run('virtual features', ('bin', '*', ('name', v), B))
+        run('virtual features', ('fun', 'D', ('name', v)))
+    # F6 assignments: new name, existing name, coordinates; constants and expressions
+    for target in ('u', 'a', 'rate', 'x', 'y', 'z'):
+        for e in (('bin', '+', RATE, B), two, B, ('bin', '*', two, ('fun', 'D', RATE)), ('fun', 'SUM', B), ('neg', RATE), ('bin', '-', E_, RATE)):
+            if target == 'a' and e is B:
+                run('assignment', B, target)
+            run('assignment', e, target)
+    run('assignment', A, 'a2')
+    run('assignment', ('name', 'x'), 'y')
+    # F7 operator objects applied directly
+    OPN = {'+': 'ADDER', '-': 'SUBSTRACTER', '*': 'MULTIPLIER', '/': 'DIVIDER', '^': 'POWER', '>': 'ABOVE', '<': 'BELOW'}
+    SOPN = {'+': 'SCALAR_ADDER', '-': 'SCALAR_SUBSTRACTER', '*': 'SCALAR_MULTIPLIER', '/': 'SCALAR_DIVIDER', '^': 'SCALAR_POWER'}
+    Op = fn['Operator']
+    env = dict(FEATS)
+    for o, nm in OPN.items():
+        if not hasattr(Op, nm):
+            raise anchor_error('Operator.%s not found' % nm, 'tracklib.core.operators')
+        for l, r in (('rate', 'b'), ('b', 'rate'), ('a', 'b'), ('b', 'p')):
+            try:
+                want = value(('bin', o, ('name', l), ('name', r)), env)
+            except (Skip, ZeroDivisionError, OverflowError):
+                continue
+            counts['operator objects'] = counts.get('operator objects', 0) + 1
+            t = mk()
+            try:
+                t.call('operate', getattr(Op, nm), l, r, 'out')
+                got = t.call('getAnalyticalFeature', 'out')
+            except orders.Unsupported as ex:
+                raise shape_error('operate(Operator.%s) not interpretable: %s' % (nm, ex), fo.loc())
+            except (ZeroDivisionError, IndexError, KeyError, TypeError, AttributeError, ValueError, OverflowError, orders.Raised) as ex:
+                got = '%s: %s' % (type(ex).__name__, ex)
+            if not same_list(got, want):
+                found.setdefault(('operator objects', nm), ('applying the operator object directly gives the values of the expression',
+                                                            {'call': 'operate(Operator.%s, %r, %r, "out")' % (nm, l, r), 'stored': [None if isn(v) else v for v in got] if isinstance(got, list) else got,
+                                                             'expected': [None if isn(v) else v for v in want]}))
+    for o, nm in SOPN.items():
+        if not hasattr(Op, nm):
+            continue
+        for l, kk in (('rate', 2.0), ('b', 0.5), ('a', 3.0)):
+            try:
+                want = value(('bin', o, ('name', l), ('num', kk)), env)
+            except (Skip, ZeroDivisionError, OverflowError):
+                continue
+            counts['operator objects'] = counts.get('operator objects', 0) + 1
+            t = mk()
+            try:
+                t.call('operate', getattr(Op, nm), l, kk, 'out')
+                got = t.call('getAnalyticalFeature', 'out')
+            except orders.Unsupported as ex:
+                raise shape_error('operate(Operator.%s) not interpretable: %s' % (nm, ex), fo.loc())
+            except (ZeroDivisionError, IndexError, KeyError, TypeError, AttributeError, ValueError, OverflowError, orders.Raised) as ex:
+                got = '%s: %s' % (type(ex).__name__, ex)
+            if not same_list(got, want):
+                found.setdefault(('operator objects', nm), ('applying the operator object directly gives the values of the expression',
+                                                            {'call': 'operate(Operator.%s, %r, %r, "out")' % (nm, l, kk), 'stored': [None if isn(v) else v for v in got] if isinstance(got, list) else got,
+                                                             'expected': [None if isn(v) else v for v in want]}))
+    for (family, key), (desc, wit) in sorted(found.items()):
+        ctx.violation('C02.G', fo, '%s: %s' % (family, desc), wit, node=fo.node, key='%s:%s' % (family, key))
+    for family, n_ in sorted(counts.items()):
+        if not any(f_ == family for f_, _ in found):
+            ctx.ok('C02.G', fo, '%s: %d expressions agree with ordinary arithmetic' % (family, n_), node=fo.node)
+    ctx.extra['C02.G expressions'] = sum(counts.values())
+
+
 RULES = [
-    ('C02.X', rule_X, 'quick'),
-    ('C02.P', rule_P, 'quick'),
-    ('C02.S', rule_S, 'quick'),
-    ('C02.T', rule_T, 'quick'),
-    ('C02.A', rule_A, 'quick'),
-    ('C02.O', rule_O, 'quick'),
-    ('C02.N', rule_N, 'quick'),
+    ('C02.G', rule_G, 'quick'),
 ]
-MIN_OBLIGATIONS = 60
+# rule_X / rule_P / rule_S / rule_T / rule_A / rule_O / rule_N (tables, kernels and arms read off the source structure) are no longer run
+# for C02: C02.G decides the same clauses on what operate() returns and stores, and is indifferent to how the evaluator is written
+# (C02-R5 and C02-R6, behaviour-preserving rewrites, made them report violations).  rule_A / rule_N are still used by C01.E.
+MIN_OBLIGATIONS = 7
